@@ -293,7 +293,8 @@ def compare(ctx, case, stats, rng, n_vw, with_lte=True, with_kappa=True, vws=Non
         try:
             with base.Spy(hg) as spy:
                 bg = hg.findHydroBoundaries(vw)
-            gstate = "ok" if vw > hg.vJ else general_state(hg, spy, vw)
+            ginfo = None if vw > hg.vJ else base.solve_info(hg, spy, vw)
+            gstate = base.solve_state(ginfo)
             mg = spy.matchings[-1] if spy.matchings else None
             mt = ht.findMatching(vw)
             bt = ht.findHydroBoundaries(vw)
@@ -336,6 +337,14 @@ def compare(ctx, case, stats, rng, n_vw, with_lte=True, with_kappa=True, vws=Non
                  "template %r" % (vw, branch, mg, mt), "matching-not-positive", vw=vw,
                  quantity="matching")
             continue
+        # slow-wall family of C02 (slow-wall-residual-not-small): hybr reports success with
+        # a residual that is not small against vp^2 <= 1e-5; reported under C02, capped here
+        if gstate == "ok" and ginfo is not None and hg.vMin == hg.vBracketLow and \
+                vw < 3.2 * hg.vBracketLow and not spy.fallback:
+            rr = base.relative_residual(ginfo, mg[0], mg[1], mg[2], mg[3])
+            if rr is not None and rr > base.RELRES_MAX:
+                ctx.count("slow_wall_corner_skipped")
+                continue
         # the general solver alone (also when the template side is a recorded finding)
         if gstate == "ok" and not spy.fallback and not (
                 hg.vMin == hg.vBracketLow and vw < 1.5 * hg.vBracketLow):
@@ -606,7 +615,7 @@ q = base.q
 
 EVAL_HDR = """From Coq Require Import Reals Lra.
 From Interval Require Import Tactic.
-From WG Require Import Lib.NumpySem Lib.HydroMatch.
+From WG Require Import Lib.NumpySem Lib.HydroMatch Lib.HydroMatchTemplate.
 From GenC15 Require Import HydroGen.
 Local Open Scope R_scope.
 Definition et0 : t_env :=
@@ -625,7 +634,7 @@ Ltac ev :=
     t_init_wN t_init_pN t_init_Tnucl t_init_nu t_init_mu t_init_epsilon
     t_findJouguetVelocity t_findJouguetVelocity_a t_getVp t_wFromAlpha t__findTm t__eqWall
     t_detonationVAndT t_findMatching_result t_matchDeflagOrHybInitial_given
-    t_findHydroBoundaries gammaSq sign_R fst snd et0
+    t_findHydroBoundaries gammaSq sign_R fst snd et0 pH pL wH wL eps_ mu_ nu_
     t_cb2 t_cs2 t_alN t_psiN t_cb t_cs t_wN t_pN t_Tnucl t_nu t_mu t_vJ t_vMin t_epsilon
     th_pHighT th_pLowT th_wHighT th_wLowT th_csqHighT th_csqLowT th_Tnucl];
   repeat match goal with
@@ -653,6 +662,21 @@ def tup(n, i, term):
 def eval_rows(case, th, ht, rng):
     rows = []
     T = "et0"
+    # the hand-written template equation of state of Lib/HydroMatchTemplate.v (the one the
+    # theorems are about) against the running Thermodynamics object
+    P = dict(wn=q(getattr(th, "wn", 1)), Tn=q(case["Tn"]), alN=q(case["alN"]),
+             psiN=q(case["psiN"]), cb2=q(case["cb2"]), cs2=q(case["cs2"]))
+    for fac in (0.7, 1.0, 1.9):
+        Tq = case["Tn"] * fac
+        for term, y in (
+                ("(pH %(wn)s %(Tn)s %(alN)s %(cb2)s %(cs2)s " % P + q(Tq) + ")",
+                 float(th.pHighT(Tq))),
+                ("(wH %(wn)s %(Tn)s %(cs2)s " % P + q(Tq) + ")", float(th.wHighT(Tq))),
+                ("(pL %(wn)s %(Tn)s %(psiN)s %(cb2)s " % P + q(Tq) + ")",
+                 float(th.pLowT(Tq))),
+                ("(wL %(wn)s %(Tn)s %(psiN)s %(cb2)s " % P + q(Tq) + ")",
+                 float(th.wLowT(Tq)))):
+            rows.append((term, y, max(abs(y), abs(float(th.wHighT(Tq))))))
     # the constructor: attribute values recomputed by the generated t_init_<attr>
     for a in gen_hydro_match.T_INIT:
         v = float(getattr(ht, a))
